@@ -369,8 +369,16 @@ def run(ctx: Context, rep) -> None:
     # the example store of the commit table, _write keeps no per-writer state
     # that a later write or close() reads, and its error paths do not touch
     # the writer
+    check_writer_state(ctx, rep, "C18.state")
+    # examples accepted before a rejected one stay reachable even when the
+    # rejection propagates out of the `with` block
+    from sa.rules import shared as _sh18
+    _sh18.check_exit_publishes(ctx, rep, "C18.publish")
+
+
+def check_writer_state(ctx: Context, rep, rule: str) -> None:
     rep.rule(
-        "C18.state",
+        rule,
         "in every shard writer's _write: (a) the only attributes of self "
         "that are mutated are the commit-table store, the lazily created "
         "resource (assigned under `if self.X is None` / `if not self.X`) and "
@@ -421,7 +429,7 @@ def run(ctx: Context, rep) -> None:
                 if d.startswith("self.") and d != f"self.{field}" and \
                         not d.startswith(f"self.{field}"):
                     bad_state.append((n, f"mutates {d}"))
-        rep.ob("C18.state", not bad_state,
+        rep.ob(rule, not bad_state,
                loc=w.loc(bad_state[0][0]) if bad_state else w.loc(),
                where=w.qualname,
                construct=(f"{bad_state[0][1]}: {short(bad_state[0][0], 60)}"
@@ -445,14 +453,13 @@ def run(ctx: Context, rep) -> None:
                                     "close", "flush", "clear") and (dotted(
                                         x.func.value) or "").startswith("self."):
                             bad_err.append(x)
-        rep.ob("C18.state", not bad_err,
+        rep.ob(rule, not bad_err,
                loc=w.loc(bad_err[0]) if bad_err else w.loc(), where=w.qualname,
                construct=short(bad_err[0], 70) if bad_err else
                "error paths leave the writer untouched",
                message="a rejected write must not close, reset or rebind the "
                "writer's resources (re-opening truncates the shard)")
-    rep.floor("C18.state", n_w, 3, "writers")
-
+    rep.floor(rule, n_w, 3, "writers")
 
 
 def check_counters(ctx: Context, rep, rule: str) -> None:
@@ -503,6 +510,10 @@ _NP = "src/sedpack/io/shard/shard_writer_np.py"
 _FB = "src/sedpack/io/shard/shard_writer_flatbuffer.py"
 _SH = "src/sedpack/io/shard/shard.py"
 SELFTESTS = [
+    dict(rule="C18.publish", name="no-publish-when-block-raised", expect="fire",
+         path="src/sedpack/io/dataset_filler.py",
+         old="        if self._auto_update_dataset:\n            # Note that when",
+         new="        if self._auto_update_dataset and exc_type is None:\n            # Note that when"),
     dict(rule="C18.pre", name="write-before-check", expect="fire", path=_SB,
          old="        # Check the values are correct type and shape.\n",
          new="        self._write(values=values)\n        # Check the values are correct type and shape.\n"),
